@@ -1,5 +1,6 @@
 import MicroHttp.Props.C02
 import MicroHttp.Props.C01
+import MicroHttp.Props.C01IO
 #print axioms MicroHttp.C02.reqline_precedence
 #print axioms MicroHttp.C02.reqline_accept_iff
 #print axioms MicroHttp.C02.grammar_accepted
@@ -8,3 +9,4 @@ import MicroHttp.Props.C01
 #print axioms MicroHttp.C02.first_bad_header_decides
 #print axioms MicroHttp.C01.tryRead_refines
 #print axioms MicroHttp.C01.sched_refines
+#print axioms MicroHttp.C01.history_input_is_reads_only
